@@ -122,6 +122,13 @@ fn cases() -> Vec<Case> {
         case("iterator defaults are private", NONE, "", &[one!("{ it := [mut 1][1:]~; (m, c) := it(); c += 5; *c }"), one!("{ it := [mut 1][1:]~; (m, c) := it(); c += 5; *c }")], None, false),
         case("printing private nested cells", NONE, "", &[one!("std.convert.to_string(mut mut mut 1)"), one!("std.convert.to_string(mut mut mut 2)")], None, false),
         case("printing private nested cells x3", NONE, "", &[one!("std.convert.to_string([mut mut 1, mut mut 2])"), one!("std.convert.to_string(mut mut 3)"), one!("std.convert.to_string(mut mut mut 4)")], Some(3), false),
+        // deeper thorough-only explorations
+        case("three threads, two ops each (bound 2)", C0, "", &[("{ c += 1; c *= 2 }", &["c += 1", "c *= 2"]), ("{ c += 3; c -= 1 }", &["c += 3", "c -= 1"]), ("{ c *= 3; c += 5 }", &["c *= 3", "c += 5"])], Some(2), true),
+        case("two threads, four ops each (bound 3)", C0, "", &[("{ c += 1; c *= 2; c -= 3; c += 7 }", &["c += 1", "c *= 2", "c -= 3", "c += 7"]), ("{ c *= 5; c += 2; c /= 2; c -= 1 }", &["c *= 5", "c += 2", "c /= 2", "c -= 1"])], Some(3), true),
+        case("two cells, crossing updates x3 (bound 3)", AB, "", &[("{ a += *b; b += 1 }", &["t := *b", "a += t", "b += 1"]), ("{ b += *a; a *= 2 }", &["t := *a", "b += t", "a *= 2"]), ("{ a -= 1; b -= 1 }", &["a -= 1", "b -= 1"])], Some(3), true),
+        case("array and readers x3 (bound 3)", CA, "", &[("{ c += [1]; *c }", &["c += [1]", "*c"]), one!("std.len(*c)"), ("{ c += [2]; std.len(*c) }", &["c += [2]", "std.len(*c)"])], Some(3), true),
+        case("failing updates x3", C5, "", &[one!("c /= 0"), one!("c %= 0"), one!("c <<= 64")], None, true),
+        case("failing update between two updates (bound 3)", C5, "", &[("{ c += 1; c /= 0 }", &["c += 1", "c /= 0"]), ("{ c *= 2; c -= 1 }", &["c *= 2", "c -= 1"])], Some(3), true),
         case("array cell two ops each", CA, "", &[("{ c += [1]; c += [2] }", &["c += [1]", "c += [2]"]), ("{ c += [3]; c = *c + [4] }", &["c += [3]", "t := *c", "c = t + [4]"])], Some(3), true),
     ]
 }
